@@ -277,6 +277,12 @@ def judge_repeat(d, rw, rr, ra, rb, orc):
     if any(x.get("died") or x.get("st") != 0 for x in (rr, ra, rb)):
         return "skip"
     tag = "%s:n%d:%s" % (cpu, n, nvlib.sha(w.encode("latin-1"))[:10])
+    tail = w.split("zafter:\n", 1)[1] if "zafter:\n" in w else ""
+    if not rw.get("died") and rw["st"] != 0 and n > 1 and any(l.strip() and not l.strip().startswith(".") and not l.strip().endswith(":")
+                                                            for l in tail.split("\n")):
+        # an instruction behind the block may address something by distance (86000 `bne 0x10,25` 192 bytes further
+        # on is out of range): the program with n copies written by hand is rejected as well, nothing is demanded
+        return "skip-tail-moved"
     if rw.get("died") or rw["st"] != 0:
         orc["failures"].append({"sig": "C09:repeat-rejected:" + tag, "input": w, "expected": "assembles",
                                 "observed": rw["raw"][:200], "what": ".repeat around valid statements rejected"})
